@@ -186,7 +186,7 @@ def check_case(case, res, acc, record=True):
             lost = sorted(n for n in sent0 if n in CONTENT_NAMES and hm.get(n) != sent0[n])
             if lost:
                 bad("content-headers-changed", prev_kind, {n: hm.get(n) for n in lost}, {n: sent0[n] for n in lost})
-        if hm.get(KEEP[0].lower()) != [KEEP[1]]:
+        if KEEP[0].lower() in sent0 and hm.get(KEEP[0].lower()) != [KEEP[1]]:
             bad("other-header-lost", prev_kind, hm.get(KEEP[0].lower()), [KEEP[1]])
         # what may / must happen after this answer
         if status == 200:
@@ -381,6 +381,10 @@ def families(thorough):
         for start in ("had", "sad"):
             for pl in f3_pl:
                 out.append(("F3", client, start, "GET", pl, (ALL_STATUS, f2_forms, 1, 0)))
+        # F4: constructor-level default headers that contain content headers, request headers made of content
+        # headers ONLY: after a 303 the forwarded mapping is empty - which is not "no headers given"
+        for start in ("had", "sad"):
+            out.append(("F4", client, start, "POST", (NOT_GIVEN, NOT_GIVEN, NOT_GIVEN), (ALL_STATUS, f2_forms, 2, 0)))
     return out
 
 
@@ -400,7 +404,8 @@ def make_case(fam, hops, mode):
     return {"client": client, "start": start, "hops": hops, "mode": mode, "method": method,
             "break_first": 1 if fam[0] == "F3" else 0,
             "body": BODY if post else None,
-            "headers": [list(h) for h in ((CONTENT_HEADERS if post else CONTENT_HEADERS[:1]) + [KEEP])],
+            "ctor_headers": [["Content-Type", "application/x-from-defaults"], ["Content-Language", "xx"], ["X-Default", "d"]] if fam[0] == "F4" else None,
+            "headers": [list(h) for h in (CONTENT_HEADERS if fam[0] == "F4" else (CONTENT_HEADERS if post else CONTENT_HEADERS[:1]) + [KEEP])],
             "header_container": "dict", "req_policy": pl[0], "ctor_policy": pl[1], "redirect_kw": pl[2]}
 
 
